@@ -39,8 +39,10 @@ theorem btoiI64_usizeToString (n : Nat) (h : n ≤ i64Max) : btoiI64 (usizeToStr
 /-! ## values that exist in memory and that `encode_resp` can frame -/
 
 mutual
-/-- line payloads (`Simple`/`Error`/`Integer`) contain no LF; a bulk length fits `i64` and an
-array length passes `Vec::with_capacity` (both hold for every value a 64-bit process can hold) -/
+/-- line payloads (`Simple`/`Error`/`Integer`) contain no LF; bulk and array lengths fit `i64`,
+and an array length passes the reservation of `parse_array` (vacuous with the capped reservation;
+all three hold for every value a 64-bit process can hold).  The nesting bound is separate:
+`NestOk 0 v` (`nesting v ≤ MAX_NESTING`, `nestOk_zero_iff`). -/
 def Wf : Resp → Prop
   | .simple p => LF ∉ p
   | .error p => LF ∉ p
@@ -48,7 +50,7 @@ def Wf : Resp → Prop
   | .bulk p => p.length ≤ i64Max
   | .bulkNil => True
   | .arrNil => True
-  | .arr l => capacityOverflow l.length = false ∧ WfList l
+  | .arr l => l.length ≤ i64Max ∧ reservePanics l.length = false ∧ WfList l
 def WfList : List Resp → Prop
   | [] => True
   | v :: vs => Wf v ∧ WfList vs
@@ -91,7 +93,7 @@ theorem encode_accepted (s : Bool) : ∀ (v : Resp), Wf v → Accepts s v (encod
     simp only [Wf] at h
     simp only [Accepts, encode, encodeSimpleElement]
     exact ⟨usizeToString l.length, CR, encodeList l, by simp [crlf_val, CR_val, LF_val],
-      btoiI64_usizeToString _ (capacity_le_i64 h.1), termOk_CR s, h.1, encodeList_accepted s l h.2⟩
+      btoiI64_usizeToString _ h.1, termOk_CR s, h.2.1, encodeList_accepted s l h.2.2⟩
 theorem encodeList_accepted (s : Bool) : ∀ (l : List Resp), WfList l → AcceptsList s l (encodeList l)
   | [], _ => by simp [AcceptsList, encodeList]
   | v :: vs, h => by
@@ -196,21 +198,22 @@ theorem decodeIndexed_ext {s : Bool} {b : Bytes} (x : Bytes) :
 the index tree resolves to the value of that shape (`to_resp_vec` cannot panic) -/
 theorem decodeIndexed_sound {s : Bool} {b : Bytes} {p : IndexedResp} {rest : Bytes}
     (h : decodeIndexed s b = .item p rest) :
-    p.data ++ rest = b ∧ ∃ v, toRespVec p.data p.resp = some v ∧ Accepts s v p.data := by
+    p.data ++ rest = b ∧ ∃ v, toRespVec p.data p.resp = some v ∧ Accepts s v p.data ∧ NestOk 0 v := by
   obtain ⟨n, hp, _, _, h3, h4⟩ := decodeIndexed_item h
-  obtain ⟨v, hv, ha⟩ := parse_ok_sound hp
+  obtain ⟨v, hv, ha, hn⟩ := parse_ok_sound hp
   rw [h3, h4]
-  exact ⟨List.take_append_drop n b, v, hv, ha⟩
+  exact ⟨List.take_append_drop n b, v, hv, ha, hn⟩
 
-theorem decodeIndexed_complete {s : Bool} {v : Resp} {e : Bytes} (h : Accepts s v e) (rest : Bytes) :
+theorem decodeIndexed_complete {s : Bool} {v : Resp} {e : Bytes} (h : Accepts s v e) (hn : NestOk 0 v)
+    (rest : Bytes) :
     ∃ idx, decodeIndexed s (e ++ rest) = .item ⟨idx, e⟩ rest ∧ toRespVec e idx = some v := by
-  obtain ⟨idx, hp, hv⟩ := parse_complete h rest
+  obtain ⟨idx, hp, hv⟩ := parse_complete h hn rest
   refine ⟨idx, ?_, hv⟩
   rw [decodeIndexed_of_ok hp, List.take_left' rfl, List.drop_left' rfl]
 
-theorem decodeVec_complete {s : Bool} {v : Resp} {e : Bytes} (h : Accepts s v e) (rest : Bytes) :
-    decodeVec s (e ++ rest) = .item v rest := by
-  obtain ⟨idx, hd, hv⟩ := decodeIndexed_complete h rest
+theorem decodeVec_complete {s : Bool} {v : Resp} {e : Bytes} (h : Accepts s v e) (hn : NestOk 0 v)
+    (rest : Bytes) : decodeVec s (e ++ rest) = .item v rest := by
+  obtain ⟨idx, hd, hv⟩ := decodeIndexed_complete h hn rest
   unfold decodeVec
   rw [hd]; simp only [hv]
 
@@ -223,7 +226,7 @@ theorem decodeVec_eq (s : Bool) (b : Bytes) :
     (decodeIndexed s b = .panic → decodeVec s b = .panic) := by
   refine ⟨?_, ?_, ?_, ?_⟩
   · intro p rest h
-    obtain ⟨_, v, hv, _⟩ := decodeIndexed_sound h
+    obtain ⟨_, v, hv, _, _⟩ := decodeIndexed_sound h
     exact ⟨v, hv, by unfold decodeVec; rw [h]; simp only [hv]⟩
   all_goals (intro h; unfold decodeVec; rw [h])
 
